@@ -1318,7 +1318,7 @@ fn main() {
     // all the run does. Abort at once instead: the verdict (worker killed by SIGABRT, keyed by input class) is the same.
     let engine_hook = std::panic::take_hook();
     std::panic::set_hook(Box::new(move |info| {
-        if !info.can_unwind() {
+        if info.payload_as_str().is_some_and(|m| m.starts_with("unsafe precondition(s) violated")) {
             unsafe { libc::abort() }
         }
         engine_hook(info)
@@ -1326,7 +1326,10 @@ fn main() {
     eng.rule(
         "Five input families, each built from a plain model and run in worker processes. decfra: `CSI Pc;Pt;Pl;Pb;Pr $ x` on an 80x25 ANSI terminal, Pc enumerated over boundary windows \
          (quick: 0..0xFF, 0xD700..0xE0FF, 0x10FF00..0x1100FF, 2^k+-2, 2^31-1; thorough: every value 0..=0x110100) and generated over 0..=2^31-1 (plus longer digit strings), with \
-         attribute/insert-mode preludes and scrolling/copying suffixes. clipboard: records for Layer::from_clipboard_data, all 65536 char values enumerated, sizes 0..=8 x 0..=5 generated. \
+         attribute/insert-mode preludes and scrolling/copying suffixes; in front of the sequence a TERMINAL STATE: fresh, or a font slot 0..3 holding a custom font \
+         (raw 256, PSF1 512, PSF2 512 / 0xD801 / 0xDC00 / 0xE000 / 2^16 / 2^17 glyphs; set with Buffer::set_font, ~1 % as CTerm font DCS) and selected with `CSI 0;n SP D`, \
+         plus any of ice colours, insert mode, top/bottom and left/right margins, origin mode, Unicode buffer type; decfra_states repeats the windows 0xF8..0x107, 0x1F8..0x207, \
+         0xD700..0xE0FF, 2^16+-8, 2^17+-8, 0x10FFF8..0x110007 for ten such states (boundary windows only for the two largest fonts and the DCS state); the macro parts use the same states. clipboard: records for Layer::from_clipboard_data, all 65536 char values enumerated, sizes 0..=8 x 0..=5 generated. \
          icy: .icy files (engine-written template, zTXt payloads rebuilt from doc/FileFormats/ICEDFormat.md) whose LAYER_0 / LAYER_0~k chunks carry long-form char fields over all 32 bits, \
          whose title / FONT name byte strings include ill-formed UTF-8 (table of 21 classic forms, enumerated), optional SAUCE chunk with arbitrary CP437 bytes. fonts: PSF1 / PSF2 / raw \
          data with 0..=2^17 glyphs (height 1..32, at most 2^18 bytes) through BitFont::from_bytes, the CTerm font DCS and an .icy FONT chunk. macros: DECDMAC definitions in hex and text \
@@ -1338,7 +1341,7 @@ fn main() {
     );
     eng.assume("a scan sees materialised values only; an invalid char that exists transiently (e.g. as a HashMap lookup key in BitFont::calculate_checksum / to_psf2_bytes) leaves no trace and is not observed");
     eng.assume("SAUCE record layout from the SAUCE rev. 5 document; .icy chunk layout from doc/FileFormats/ICEDFormat.md; the PNG container is written with the png crate");
-    eng.assume("a worker abort is counted as a violation and keyed by input family (an abort right after an invalid value was built is evidence)");
+    eng.assume("a worker abort is counted as a violation and keyed by input family (+ `|state=big_font` when the caret's font has more than 0xD800 glyphs); under the ubcheck profile a failed standard-library UB check aborts at once (the panic hook of this check skips the backtrace)");
 
     let thorough = eng.is_thorough();
 
